@@ -214,15 +214,19 @@ func runCheck(o checkOpts) checkOutcome {
 	var units []*FuncContract
 	for _, k := range keys {
 		fc := prog.contracts[k]
-		units = append(units, fc)
-		var ords []int
-		for ord := range fc.closures {
-			ords = append(ords, ord)
+		var addUnit func(fc *FuncContract)
+		addUnit = func(fc *FuncContract) {
+			units = append(units, fc)
+			var ords []int
+			for ord := range fc.closures {
+				ords = append(ords, ord)
+			}
+			sort.Ints(ords)
+			for _, ord := range ords {
+				addUnit(fc.closures[ord])
+			}
 		}
-		sort.Ints(ords)
-		for _, ord := range ords {
-			units = append(units, fc.closures[ord])
-		}
+		addUnit(fc)
 	}
 	for _, fc := range units {
 		e := newEngine(prog)
